@@ -2,7 +2,7 @@
    Statements only; proofs in Forkchoice/{GhostProofs,Refuted}.v. *)
 From Coq Require Import NArith ZArith List Bool.
 From V Require Import Base.U64 Base.Outcome Forkchoice.ProtoArray Forkchoice.VoteStore Forkchoice.Wrapper Forkchoice.TreeSpec
-     Forkchoice.GhostSpec Forkchoice.Step Forkchoice.GhostProofs Forkchoice.Refuted.
+     Forkchoice.GhostSpec Forkchoice.Step Forkchoice.TreeSpec Forkchoice.TreeProofs Forkchoice.GhostProofs Forkchoice.WeightProofs Forkchoice.LinkProofs Forkchoice.Refuted.
 Import ListNotations.
 Local Open Scope N_scope.
 
@@ -11,8 +11,10 @@ Local Open Scope N_scope.
    weight = balances of the validators whose latest accepted vote lies in the subtree). *)
 Definition C09_full : Prop := forall i ops, refines sel_c09 true i ops = true.
 Definition C09_head_refines : Prop := forall i ops, refines sel_c09 false i ops = true.
-   (* with the hypothesis excluding the known finding prune_keeps_late_fork. NOT proved: the invariants weights_inv (node weight =
-      subtree weight of the counted votes) and best_links_inv (BestChild/BestDescendant = the argmax chain after a refresh) are
+   (* with the hypothesis excluding the known finding prune_keeps_late_fork. NOT proved. Proved below: weights_inv for all states
+      reached without pruning (C09_weights_inv_partial) and the latest-message rule (vote_once). Not proved: weights across OnPrune,
+      and best_links_inv proper (BestChild/BestDescendant = the ARGMAX chain after a refresh; the soundness half - links and head stay
+      inside the fork-choice subtree, the head is viable - is proved below, C09_head_sound_partial); both are
       checked on every correspondence run (node weights are compared with the Spec's after every head computation and update;
       the link fields through the state checksum against the Impl and through every head against the Spec), not proved.
       Proved for all states and inputs: the latest-message rule (vote_once), below. *)
@@ -39,6 +41,65 @@ Theorem C09_vote_once_refresh : forall fx ind ob nb_ st st' d,
   Forall2 (refreshed ind) (vs_votes st) (vs_votes st') /\ vs_changed st' = false /\ length d = length ind.
 Proof. exact vote_once_refresh. Qed.
 Print Assumptions C09_vote_once_refresh.
+
+(* weights_inv (partial: histories without pruning; modulo 2^64 like the int64 arithmetic of the code, hence exactly when the sum of
+   balances is below 2^63). [WInv pa votes bal]: every node weighs the sum of the balances of the validators whose COUNTED vote lies in
+   its fork-choice subtree (fork-choice parents read positionally as ApplyScoreChanges does). *)
+
+(* the first pass of ApplyScoreChanges, for every array whose fork-choice parents come earlier and every delta vector of the right
+   length: no panic, nothing but weights changes, every node gains the sum of the deltas of its fork-choice subtree *)
+Theorem C09_weights_loop_spec : forall k pa d,
+  FpOk (fps_of pa) -> length d = length (pa_nodes pa) -> (k <= length (pa_nodes pa))%nat ->
+  exists pa' d', weights_loop fixed k d pa = (pa', Ok d') /\ same_but_w pa pa' /\ length d' = length d /\
+    forall j, (j < length (pa_nodes pa))%nat ->
+      if (j <? k)%nat then eqm (dnth (ws pa') j) (dnth (ws pa) j + csum (fps_of pa) d k j)
+      else dnth (ws pa') j = dnth (ws pa) j.
+Proof. exact weights_loop_spec. Qed.
+Print Assumptions C09_weights_loop_spec.
+
+(* ComputeDeltas + ApplyScoreChanges (any epochs, any new balances) re-establish the invariant: hypotheses = the array is related to
+   its tree (TreeProofs.Rel), non-empty, and satisfies JP = fork-choice parents come earlier, `indices` has one entry per node with
+   values from the offset, the zero ref is unknown, counted/pending votes are zero or known with "counted known => pending known",
+   and WInv under the old balances. Whatever the second pass returns, the tree is untouched. *)
+Theorem C09_weights_inv_refresh : forall st bal nb_ je fe pa,
+  Rel pa -> pa_nodes pa <> [] -> JP (vs_votes st) bal pa ->
+  exists st' d pa' o,
+    ComputeDeltas fixed (pa_idx pa) bal nb_ st = (st', Ok d) /\ ApplyScoreChanges fixed d je fe pa = (pa', o) /\
+    JP (vs_votes st') nb_ pa' /\ abs pa' = abs pa /\ Rel pa' /\ vs_changed st' = false.
+Proof. exact JP_refresh. Qed.
+Print Assumptions C09_weights_inv_refresh.
+
+(* weights_inv_partial: the invariant holds in every state reached from a state satisfying it (C09_weights_inv_base: a fresh array
+   with an empty vote store) by ProcessSlot/ProcessBlock calls in the domain, attestations for known (root, slot) pairs (what the
+   repaired wrapper lets through) and refreshes with any balances and epochs - i.e. everything but OnPrune *)
+Theorem C09_weights_inv_partial : forall pa st bal, wreach pa st bal -> WInv pa (vs_votes st) bal.
+Proof. exact weights_inv_partial. Qed.
+Print Assumptions C09_weights_inv_partial.
+Theorem C09_weights_inv_reach : forall pa st bal, wreach pa st bal -> Rel pa /\ pa_nodes pa <> [] /\ JP (vs_votes st) bal pa.
+Proof. exact weights_inv_reach. Qed.
+Theorem C09_weights_inv_base : forall parent r s je fe sn bal, (r, s) <> zero_ref -> JP [] bal (new_array parent r s je fe sn).
+Proof. exact JP_new_array. Qed.
+Print Assumptions C09_weights_inv_base.
+
+(* best links, the soundness half (partial: histories without pruning). [BL pa]: fork-choice parents come earlier, and for every node
+   either BestChild = BestDescendant = NONE, or BestChild is one of its fork-choice children and BestDescendant lies in that child's
+   fork-choice subtree. [lreach]: the states reached from one with Rel + BL (C09_links_base: a fresh array) by ProcessSlot/ProcessBlock
+   in the domain, ApplyScoreChanges with ANY deltas and epochs, and FindHead calls. *)
+Theorem C09_links_reach : forall pa, lreach pa -> Rel pa /\ BL pa /\ created pa < two64.
+Proof. exact links_reach. Qed.
+Print Assumptions C09_links_reach.
+Theorem C09_links_base : forall parent r s je fe sn, BL (new_array parent r s je fe sn).
+Proof. exact BL_new_array. Qed.
+
+(* C09_head_refines_partial (soundness half): in every such state, when FindHead answers, the head is the start node or one of its
+   fork-choice descendants (positional ancestry, the relation of WInv) and it is viable. That it is the ARGMAX descendant
+   (best_links_inv proper: greatest (weight, root) among the children leading to a viable node, at every level) is NOT proved. *)
+Theorem C09_head_sound_partial : forall pa r s pa1 h, lreach pa -> FindHead fixed r s pa = (pa1, Ok h) ->
+  exists ia ih nh, idx_get (pa_idx pa1) (r, s) = Some (pa_off pa1 + N.of_nat ia) /\
+                   nth_error (pa_nodes pa1) ih = Some nh /\ n_ref nh = h /\
+                   anc (fps_of pa1) ih ia = true /\ viable pa1 nh = true.
+Proof. exact head_sound_partial. Qed.
+Print Assumptions C09_head_sound_partial.
 
 (* the Spec's head, when there is one, is a viable node of the tree *)
 Theorem C09_spec_head_sound : forall s start e,
